@@ -427,17 +427,20 @@ func runConc(sc *Scenario, st *SiteTable, raceLog *raceLogReader) *Outcome {
 
 // concDivergence: see engineDivergence in history.go.
 func concDivergence(sc *Scenario, op *Op, hb [][]byte, hs []string, got string) bool {
+	var refs []string
 	for _, k := range []Knobs{{NoDFA: true, NoPrefilter: true}, {}} {
 		k.Longest = sc.Knobs.Longest
 		ref, err := compile(sc.Pattern, k)
 		if err != nil {
 			continue
 		}
-		if execOp(ref, op, hb, hs) == got {
+		r := execOp(ref, op, hb, hs)
+		if r == got {
 			return true
 		}
+		refs = append(refs, r)
 	}
-	return false
+	return len(refs) == 2 && refs[0] != refs[1]
 }
 
 // serialRecheck replays the same operations with no preemption and a fault-free
